@@ -10,7 +10,7 @@ EXPL = ("Given C01 (every tree covers every live item) and C11 (distance values)
         "under Key::item(self.index, id) in the caller's transaction (never a stale or deleted vector); (S9) results are popped "
         "nearest-first from a BinaryHeap<Reverse<(OrderedFloat<f32>, id)>>, exactly min(count, candidates) of them, each with "
         "D::normalized_distance of its own entry; (S12) an empty index answers empty; (S10) the budget arithmetic saturates. "
-        "NOT decided: numerical truth of the distance (C11); completeness of the forest (C01).")
+        "The premise C01 is not assumed silently: all of C01's structural clauses (kinds, pairing, relinking, fresh ids, bucket rewrites, batch selector, ...) are re-evaluated by this check as well. NOT decided: numerical truth of the distance (C11); the global forest invariant beyond C01's clauses.")
 
 
 def run(ctx):
@@ -31,3 +31,6 @@ def run(ctx):
         rr.r_seed_roots(ctx, tv)
         rr.r_scoring(ctx, tv)
     rr.r_entry_points(ctx)
+    # premise C01 ("no stored item is ever unreachable"): its structural clauses are re-checked here
+    from props import C01
+    C01.rules(ctx)
